@@ -225,7 +225,12 @@ def cmdGen : P String := do
       let mine := renderFile f
       if mine != summary then return s!"DIFF C07 model-mismatch:view-differs-at-{firstDiffLine mine summary} {feats}"
     -- the compiler is the ground truth for wellFormed, both directions
-    if compile == "ok" && wf == some false then
+    -- methodsOk is conservative for a `Reply<X>` helper that shadows a promoted varlink.Call method the file calls:
+    -- Go accepts the file when the signatures happen to agree (e.g. `method MethodNotImplemented() -> (s: string)`);
+    -- such members are outside the domain (`noReserved`)
+    let conservativeShadow := !dom && firstFailure f == some "method-set"
+      && t.members.any (fun m => reservedReply.contains m.name)
+    if compile == "ok" && wf == some false && !conservativeShadow then
       return s!"DIFF C07 model-rejects-but-compiles:{(firstFailure f).getD "?"} {feats}"
     if compile == "fail" && wf == some true then
       return s!"DIFF C07 model-wellformed-but-compiler-rejects-{bstr ccls} {feats}"
@@ -234,8 +239,6 @@ def cmdGen : P String := do
       if pdesc != t.description ++ [10] then return s!"DIFF C07 reports-other-description {feats}"
     -- the description-level characterisation of "imports = packages used" against the view-level check
     if importsExact t != importsOk f then return s!"DIFF C07 model-mismatch:imports-characterisation {feats}"
-    -- what the theorems promise must hold at run time too
-    if dom && kdf && wf != some true then return s!"DIFF C07 theorem-contradicted:wellformed {feats}"
   -- the property itself, on the observation
   if dom then
     if real == "crash" then return s!"DIFF C07 crash-in-domain {feats}"
@@ -248,6 +251,8 @@ def cmdGen : P String := do
       if ccls == str "package-main" then return s!"DIFF C07 package-main-not-importable {feats}"
       return s!"DIFF C07 compiler-rejects-in-domain-{bstr ccls} {feats}"
     if kdf && real != "ok" then return s!"DIFF C07 theorem-contradicted:total {feats}"
+    -- what the theorems promise must hold at run time too
+    if kdf && wf != some true then return s!"DIFF C07 theorem-contradicted:wellformed {feats}"
   return s!"OK {feats}"
 
 /-- `genperr x<tag> x<description> | <real>`: the real parser rejected the description; the generator must
